@@ -1,5 +1,6 @@
 """C07 - each target's result is independent of the other targets in the run (worker reuse, thread schedules)."""
 import copy
+import re
 import json
 
 from .. import gen, report
@@ -129,6 +130,44 @@ def cases(seed, tier):
         if mode.startswith('policy'):
             c['policy_text'] = POLICY
         yield c
+    yield from rate_cases(seed, tier)
+
+
+def rate_cases(seed, tier):
+    """Runs in which the connection-rate check of the standard audit runs (every other case passes --skip-rate-test).  The check is the
+    one phase whose *finding* is a measurement over time: one target answers slowly (its check runs for the whole 1.5 s window and ends far
+    below the 20 connections per second that earn the note), the others answer at once (38 connections in a few milliseconds: far above it),
+    so that whether a target gets the note is decided by margins of two orders of magnitude - in the run and in the single-target reference
+    alike - and cannot legitimately depend on the other targets.  The numbers quoted inside the note are masked before comparing."""
+    for j in range(40 if tier == 'quick' else 600):
+        rng = gen.case_rng(seed, ID, 'rate', j)
+        k = rng.choice([2, 3, 3])
+        targets = []
+        slow = rng.randrange(k)
+        for i in range(k):
+            t = make_target(rng, rng.choice(['clean', 'terrapin_marked', 'rsa2048', 'cbc_etm']), i)
+            t['profile']['kex'] = [x for x in t['profile']['kex'] if not x.startswith('diffie-hellman-group-exchange')] + ['diffie-hellman-group14-sha256']
+            t['profile']['key'] = ['ssh-ed25519']
+            if i == slow:
+                # quick during the audit proper, slow from the first connection of the rate check on: its check is under way early and lasts the whole window
+                t['profile']['banner_delay_us'] = rng.choice([400_000, 700_000])
+                t['profile']['banner_delay_from'] = 2
+            else:
+                # the other way round: these reach their rate check (fractions of a second) later, while the slow target's check is still going
+                t['profile']['banner_delay_us'] = rng.choice([0, 150_000, 300_000])
+                t['profile']['banner_delay_until'] = 2
+            t['arch'] = ('slow_' if i == slow else 'fast_') + t['arch']
+            targets.append(t)
+        mode = rng.choice(['text', 'json'])
+        yield {'targets': targets, 'mode': mode, 'opts': ['-n'] if mode == 'text' else ['-j'], 'threads': rng.choice([2, k, 32]), 'sched': gen.rand_sched(rng, preempt=False),
+               'net': {'rtt_us': 100}, 'pseed': rng.getrandbits(32), 'timeout': 3, 'rate_test': True}
+
+
+_RATE_NUMBERS = re.compile(r'\d+ connections were created in [0-9.]+ seconds, or [0-9.]+ conns/sec')
+
+
+def mask_rate(text):
+    return _RATE_NUMBERS.sub('N connections were created in T seconds, or R conns/sec', text)
 
 
 def sample(case):
@@ -155,7 +194,7 @@ def run_case(case, ctx):
         out.append(viol('C07 multi-target run did not complete normally (status=%s outcome=%s)' % (mrec['status'], mrec['outcome']),
                         'archs=%r\nstdout tail:\n%s\nstderr:\n%s' % (archs, mrec['stdout'][-1500:], mrec['stderr'][-500:])))
     elif mode in ('json', 'policy_json'):
-        doc, err = report.parse_json(mrec['stdout'])
+        doc, err = report.parse_json(mask_rate(mrec['stdout']) if case.get('rate_test') else mrec['stdout'])
         if not isinstance(doc, list):
             # malformed array is C08's business; C07 only compares what it can attribute
             doc = []
@@ -165,7 +204,7 @@ def run_case(case, ctx):
             if i is not None:
                 seen[i] = el
         for i, s in enumerate(singles):
-            sdoc, _ = report.parse_json(s['stdout'])
+            sdoc, _ = report.parse_json(mask_rate(s['stdout']) if case.get('rate_test') else s['stdout'])
             if sdoc is None or i not in seen:
                 continue
             if seen[i] != sdoc:
@@ -186,6 +225,8 @@ def run_case(case, ctx):
             if i not in seen:
                 continue
             a, b = multi.norm_block(seen[i]), multi.norm_block(s['stdout'])
+            if case.get('rate_test'):
+                a, b = mask_rate(a), mask_rate(b)
             if a != b:
                 al, bl = a.split('\n'), b.split('\n')
                 extra = [ln for ln in al if ln not in bl][:6]
